@@ -210,9 +210,20 @@ def fam_guards(mi, rnd, tier):
         nab = len([c for c in calls if c[0] == 'ab'])
         conds = [c for c in calls if c[0] in ('g', 'u')]
         if len(conds) > maxn:
-            continue
+            # too many for the full table: everything passes, each single condition blocks, and a random sample
+            n = len(conds)
+            passing = ['t' if c[0] == 'g' else 'f' for c in conds]
+            table = [tuple(passing)]
+            for i in range(n):
+                row = list(passing)
+                row[i] = 'f' if conds[i][0] == 'g' else 't'
+                table.append(tuple(row))
+            for _ in range(12):
+                table.append(tuple(rnd.choice('tf') for _ in range(n)))
+        else:
+            table = list(itertools.product('tf', repeat=len(conds)))
         for dyn in ([True, False] if mi.dynamic else [False]):
-            for bits in itertools.product('tf', repeat=len(conds)):
+            for bits in table:
                 plc = PL()
                 st, d2 = start_ops(mi, rnd, dyn)
                 po = path_ops(mi, leaf, d2, plc)
@@ -834,6 +845,48 @@ def fixtures():
     # the dynamic API without any event: no `events` key, and an empty `events {}` block
     out.append([('name', 'M'), ('initial', 'A'), ('dynamic', True), ('states', [('leaf', 'A', 'D0'), ('leaf', 'B', None)])])
     out.append([('name', 'M'), ('initial', 'A'), ('context', 'Ctx'), ('dynamic', True), ('states', [('leaf', 'A', None)]), ('events', [])])
+    # typestate-only: one event declared in two blocks with their own event-level hooks (legal without the dynamic
+    # wrapper), transition-level lists spelled out empty, a data type that is a reference, the legacy `action:` key
+    out.append([('name', 'M'), ('initial', 'Closed'), ('legacy', 'action'),
+                ('states', [('leaf', 'Closed', None), ('leaf', 'Open', "&'static str"), ('leaf', 'Locked', 'D1')]),
+                ('events', [_ev('toggle', _tr(['Closed'], 'Open', guards=['tg1']), guards=['eg1'], before=['eb1'], around=['ew1']),
+                            _ev('lock', _tr(['Closed', 'Open'], 'Locked', guards=[], unless=[], before=[]), guards=['lg1'], unless=['lu1']),
+                            _ev('toggle', _tr(['Open'], 'Closed', unless=['tu2']), _tr(['Locked'], 'Open'),
+                                guards=['eg2'], unless=['eu2'], after=['ea2'], around=['ew2']),
+                            _ev('unlock', _tr(['Locked'], 'Closed', around=[]), around=['uw1'])])])
+    # the same shape with the dynamic wrapper (distinct event names), for the accessors and setters of the borrowed data
+    out.append([('name', 'M'), ('initial', 'Closed'), ('dynamic', True), ('legacy', 'callbacks'),
+                ('states', [('leaf', 'Closed', None), ('leaf', 'Open', "&'static str"), ('leaf', 'Locked', 'D1')]),
+                ('events', [_ev('open', _tr(['Closed'], 'Open', guards=['tg1']), guards=['eg1']),
+                            _ev('lock', _tr(['Closed', 'Open'], 'Locked', guards=[], unless=[]), guards=['lg1'], unless=['lu1']),
+                            _ev('shut', _tr(['Open'], 'Closed', unless=['tu2']), _tr(['Locked'], 'Open')),
+                            _ev('stay', _tr(['Open'], 'Open'))])])
+    # sizes beyond what the random shapes reach: twelve leaves, five nesting levels, nine events, an edge with six
+    # guards, five unless-conditions, five before, five after and five around callbacks spread over both levels
+    big_forest = [
+        ('leaf', 'G1', 'D0'), ('leaf', 'H1', None),
+        ('super', 'L1', None, [
+            ('leaf', 'A1', None),
+            ('super', 'L2', None, [
+                ('leaf', 'B1', 'D1'),
+                ('super', 'L3', None, [
+                    ('leaf', 'C1', None),
+                    ('super', 'L4', None, [('initial', 'E1'), ('leaf', 'D1x', None), ('leaf', 'E1', 'D2'),
+                                           ('super', 'L5', None, [('leaf', 'F1', None), ('leaf', 'F2', 'D3')])])])]),
+            ('leaf', 'A2', None)]),
+        ('leaf', 'I1', None), ('leaf', 'J1', None), ('leaf', 'K1', None)]
+    big_events = [
+        _ev('big', _tr(['G1', 'L3'], 'L4', guards=['bg5', 'bg6'], unless=['bu4', 'bu5'], before=['bb4', 'bb5'], after=['ba4', 'ba5'], around=['bw4', 'bw5']),
+            payload='P', guards=['bg1', 'bg2', 'bg3', 'bg4'], unless=['bu1', 'bu2', 'bu3'], before=['bb1', 'bb2', 'bb3'],
+            after=['ba1', 'ba2', 'ba3'], around=['bw1', 'bw2', 'bw3']),
+        _ev('e1', _tr(['G1'], 'H1')), _ev('e2', _tr(['H1'], 'I1')), _ev('e3', _tr(['I1'], 'J1')), _ev('e4', _tr(['J1'], 'K1')),
+        _ev('e5', _tr(['K1'], 'L1')), _ev('e6', _tr(['L1'], 'G1')), _ev('e7', _tr(['L5'], 'A2'), _tr(['A2', 'B1'], 'L5')),
+        _ev('e8', _tr(['L2'], 'L2', guards=['sg1'])),
+    ]
+    for is_async in (False, True):
+        d = [('name', 'M'), ('initial', 'G1')] + ([('async', True)] if is_async else []) + \
+            [('dynamic', True), ('states', big_forest), ('events', big_events)]
+        out.append(d)
     # a superstate and a leaf whose names glue to the same string as another pair: "Power"+"OnHold" = "PowerOn"+"Hold"
     # (and "Power"+"On"... : a key made of an ancestor and a leaf must keep them apart)
     out.append([('name', 'M'), ('initial', 'Off'), ('dynamic', True),
